@@ -111,7 +111,7 @@ fn install(spec: &FileSpec, path: &PathBuf) {
 
 fn main() {
     let args = Args::parse();
-    std::panic::set_hook(Box::new(|_| {}));
+    vcore::quiet_panics();
     let mut report = Report::new(
         "access_list",
         "sequences of reloads through update_access_list on a shared ArcSwap with caches created before the reloads; list files valid (upper/lower/mixed case, blank lines, surrounding whitespace, CRLF), malformed at a random position (39/41 digits, non-hex, two hashes on a line, comments, non-UTF-8), missing, or a directory; after every reload every probe hash is queried through a cache and through AccessListQuery in all three modes; \
